@@ -94,20 +94,25 @@ theorem C17_other_calls_no_panic (s : State) (o : Oracle) (p : Panic) :
         given value — the documented precondition;
     (b) a physically absent key comes with a value — the documented precondition;
     (c) for a present key, `now + ttl` is representable;
-    (d) when the request only removes the TTL of a present key that has one (no weight, no value): the charged weight
-        exceeds `ttlEntry` (and the difference is an `i64`);
-    (e) when the request only adds a TTL to a present key that has none: charged weight `+ ttlEntry` is a positive `i64`;
+    (d) when the request only removes the TTL of a present key that has one (no weight, no value) AND the key id is
+        charged: the charged weight exceeds `ttlEntry` (and the difference is an `i64`);
+    (e) when the request only adds a TTL to a present key that has none AND the key id is charged: charged weight
+        `+ ttlEntry` is a positive `i64`;
     (f) the weight that is sent (explicit, or the weight function's) is an `i64`.
-    `chargedWeight s id` is the weight charged for `id`, 0 if none. Each hypothesis is only asked where it is used,
-    which makes the theorem stronger than with unconditional (a)–(f). -/
+    `chargedWeight s id` is the weight charged for `id` (0 if none — but since fix c86efeb (d) and (e) are asked only
+    when the id IS charged: for an id that is not charged no weight is computed, nothing is sent and nothing panics;
+    before the fix the call computed `0 ± ttlEntry`, so (d) could not hold for such an id).
+    Each hypothesis is only asked where it is used, which makes the theorem stronger than with unconditional (a)–(f). -/
 theorem C17_upsert_no_panic (s : State) (c k : Nat) (v : Option Nat) (w : Option Int) (ttl : Option Nat) (rm : Bool)
     (ha1 : ∀ x, w = some x → 0 < x)
     (ha2 : ∀ val, v = some val → w = none → 0 < s.cfg.weightOf val ttl.isSome)
     (hb : s.store.get? k = none → v.isSome = true)
     (hc : ∀ e t, s.store.get? k = some e → ttl = some t → rm = false → ∃ x, addTime s.now t = some x)
     (hd : ∀ e a, s.store.get? k = some e → e.expiry = some a → rm = true → w = none → v = none →
+      (s.adm.kw.get? e.id).isSome = true →
       s.cfg.ttlEntry < chargedWeight s e.id ∧ inI64 (chargedWeight s e.id - s.cfg.ttlEntry) = true)
     (he : ∀ e t, s.store.get? k = some e → e.expiry = none → rm = false → ttl = some t → w = none → v = none →
+      (s.adm.kw.get? e.id).isSome = true →
       0 < chargedWeight s e.id + s.cfg.ttlEntry ∧ inI64 (chargedWeight s e.id + s.cfg.ttlEntry) = true)
     (hf1 : ∀ e x, s.store.get? k = some e → w = some x → inI64 x = true)
     (hf2 : ∀ e val, s.store.get? k = some e → v = some val → w = none → inI64 (s.cfg.weightOf val ttl.isSome) = true)
@@ -160,27 +165,33 @@ theorem C17_upsert_no_panic (s : State) (c k : Nat) (v : Option Nat) (w : Option
               cases ne with
               | none => simp [hexp] at hx
               | some n =>
-                simp only [hexp, Option.some.injEq] at hx; subst hx
+                simp only [hexp, Option.map_eq_some_iff] at hx
+                obtain ⟨y, hy, rfl⟩ := hx
+                obtain ⟨wk, hwk, _⟩ := chargedWeight?_some_iff.mp hy
+                rw [← chargedWeight_of_some hy]
                 cases rm with
                 | true => simp [upsertExpiry] at hne'
                 | false =>
                   cases ttl with
                   | none => simp [upsertExpiry, hexp] at hne'
                   | some t =>
-                    obtain ⟨h1, h2⟩ := he e t hk hexp rfl rfl rfl rfl
+                    obtain ⟨h1, h2⟩ := he e t hk hexp rfl rfl rfl rfl (by rw [hwk]; rfl)
                     exact ⟨h2, h1⟩
             | some a =>
               cases ne with
               | some n => simp [hexp] at hx
               | none =>
-                simp only [hexp, Option.some.injEq] at hx; subst hx
+                simp only [hexp, Option.map_eq_some_iff] at hx
+                obtain ⟨y, hy, rfl⟩ := hx
+                obtain ⟨wk, hwk, _⟩ := chargedWeight?_some_iff.mp hy
+                rw [← chargedWeight_of_some hy]
                 cases rm with
                 | false =>
                   cases ttl with
                   | none => simp [upsertExpiry, hexp] at hne'
                   | some t => simp [upsertExpiry] at hne'
                 | true =>
-                  obtain ⟨h1, h2⟩ := hd e a hk hexp rfl rfl rfl
+                  obtain ⟨h1, h2⟩ := hd e a hk hexp rfl rfl rfl (by rw [hwk]; rfl)
                   exact ⟨h2, by omega⟩
 
 def c17Cfg : Cfg := { maxWeight := 100, shards := 2, cmdCap := 4, poolSize := 1, bufSize := 2, counters := 2 }
@@ -202,6 +213,36 @@ theorem C17_counterexample_ttl_removal :
     ∃ s', clientUpsert c17Light 0 1 none none none true = (s', .panic .weightNotPositive) ∧
       s'.store.get? 1 = some { value := 10, id := 1, expiry := none, soft := false } ∧ s'.ttl = [] ∧
       s'.adm.kw.get? 1 = some { key := 1, hash := 1, weight := 5 } :=
+  ⟨rfl, rfl, rfl, _, rfl, rfl, rfl, rfl⟩
+
+/-- **A pure time-to-live change of a key id that is not charged cannot panic** (fix c86efeb, defect D14): for a
+    present key whose id is not charged (evicted, swept or deleted by the background threads while the caller-side
+    program was under way — at Layer A no reachable state is like that, `TtlInv.charged`), a request without weight and
+    value computes no weight, sends nothing, and is answered Accepted on the spot; only (c) is needed.  Before the fix
+    the call computed `0 ± ttlEntry`: a time-to-live removal panicked on `0 - 24` whatever the caller did. -/
+theorem C17_upsert_uncharged_ttl_only (s : State) (c k : Nat) (ttl : Option Nat) (rm : Bool) (e : Entry)
+    (hsh : s.shutting = false) (hk : s.store.get? k = some e) (hu : s.adm.kw.get? e.id = none)
+    (hc : ∀ t, ttl = some t → rm = false → ∃ x, addTime s.now t = some x) :
+    (clientUpsert s c k none none ttl rm).2 = .ack s.acks.length .accepted ∧
+    (clientUpsert s c k none none ttl rm).1.queue = s.queue ∧ (clientUpsert s c k none none ttl rm).1.pend = s.pend := by
+  have hov' : ∀ t, ttl = some t → rm = false → addTime s.now t = some (s.now + t) :=
+    fun t h1 h2 => (addTime_some_iff _ _).mp (hc t h1 h2)
+  rw [clientUpsert_present s c k none none ttl rm e _ hsh hk (upsertNewExpiry?_eq s e ttl rm hov')]
+  have hw : upsertWeight s e none none ttl (upsertExpiry s e ttl rm) = none := by
+    unfold upsertWeight
+    rw [chargedWeight?_eq_none hu]
+    cases e.expiry <;> cases upsertExpiry s e ttl rm <;> rfl
+  rw [hw]
+  exact ⟨rfl, rfl, rfl⟩
+
+/-- non-vacuity, and the run of `C17_counterexample_ttl_removal` with the key id NOT charged: the removal of the
+    time-to-live is answered Accepted on the spot (before the fix: panic on `0 - 24`) -/
+example :
+    let s := { c17Light with adm := { max := 100, used := 0, kw := [] } }
+    s.shutting = false ∧ s.store.get? 1 = some { value := 10, id := 1, expiry := some 4000000000, soft := false } ∧
+    s.adm.kw.get? 1 = none ∧
+    ∃ s', clientUpsert s 0 1 none none none true = (s', .ack 1 .accepted) ∧
+      s'.store.get? 1 = some { value := 10, id := 1, expiry := none, soft := false } ∧ s'.ttl = [] ∧ s'.queue = [] :=
   ⟨rfl, rfl, rfl, _, rfl, rfl, rfl, rfl⟩
 
 /-- **(c) is needed.** `put_or_update(k).time_to_live(Duration::MAX)` on a present key: `now + ttl` overflows in the
@@ -459,8 +500,10 @@ def Ev.pre (s : State) : Ev → Prop
     (s.store.get? k = none → v.isSome = true) ∧
     (∀ e t, s.store.get? k = some e → ttl = some t → rm = false → ∃ x, addTime s.now t = some x) ∧
     (∀ e a, s.store.get? k = some e → e.expiry = some a → rm = true → w = none → v = none →
+      (s.adm.kw.get? e.id).isSome = true →
       s.cfg.ttlEntry < chargedWeight s e.id ∧ inI64 (chargedWeight s e.id - s.cfg.ttlEntry) = true) ∧
     (∀ e t, s.store.get? k = some e → e.expiry = none → rm = false → ttl = some t → w = none → v = none →
+      (s.adm.kw.get? e.id).isSome = true →
       0 < chargedWeight s e.id + s.cfg.ttlEntry ∧ inI64 (chargedWeight s e.id + s.cfg.ttlEntry) = true) ∧
     (∀ e x, s.store.get? k = some e → w = some x → inI64 x = true) ∧
     (∀ e val, s.store.get? k = some e → v = some val → w = none → inI64 (s.cfg.weightOf val ttl.isSome) = true)
@@ -584,7 +627,7 @@ example : Ev.pre c17Ok (.upsert 0 1 none none none true) ∧
                     queue := [(.updateWeight 1 5, some 1)], acks := [.accepted, .pending] }, .ack 1 .pending) := by
   refine ⟨⟨nofun, nofun, ?_, nofun, ?_, nofun, nofun, nofun⟩, rfl⟩
   · intro h; exact absurd h (by decide)
-  · intro e a hk _ _ _ _
+  · intro e a hk _ _ _ _ _
     have : e = { value := 10, id := 1, expiry := some 4000000000, soft := false } := by
       have h2 : c17Ok.store.get? 1 = some { value := 10, id := 1, expiry := some 4000000000, soft := false } := rfl
       rw [h2] at hk; exact (Option.some.inj hk).symm
